@@ -42,6 +42,9 @@ def check(prog, rep, tier):
                       'and manual stop')
     rep.rule('R02.e', 'no earlier session changes what the next one negotiates: the session hold time is '
                       'min(configured value, value proposed in this OPEN), never a value left by an earlier session')
+    rep.rule('R02.h', 'stays up (necessary conditions): in OpenConfirm / Established no hold or keepalive timer is armed '
+                      'with a value that can be 0, and a late connectionLost of a replaced connection leaves the '
+                      'tracked connection and the state alone')
     rep.rule('R02.g', 'a failed or lost TCP connection is never ignored in a session state: every such row ends in '
                       'Idle (or Active from OpenSent) with the reconnection pending')
     rep.rule('R02.f', 'Active is transient: no path ends in Active, the only connectTCP targets the BGP '
@@ -174,6 +177,15 @@ def check(prog, rep, tier):
     if seen_c and all(v == 'ok' for v in seen_c.values()):
         rep.ok('R02.c', 'close-marks-disconnected', file='yabgp/core/protocol.py',
                found='%d closing cells mark the protocol as disconnected' % len(seen_c))
+
+    # ---------------------------------------------------------------- R02.h: stays up
+    # two structural conditions of "stays up while the peer cooperates": nothing the cooperative peer sends arms a
+    # timer with 0 seconds (it would fire at once and tear the session down), and the close report of an earlier
+    # connection does not disturb the live one
+    from .c03 import zero_hold_resets
+    from .c12 import stale_lost_rule
+    zero_hold_resets(tab, facts, rep, 'R02.h', only_states=('OpenConfirm', 'Established'))
+    stale_lost_rule(tab, rep, 'R02.h')
 
     # ---------------------------------------------------------------- R02.g
     from .. import profile as P
